@@ -63,10 +63,14 @@ fn main() {
         let id = id.clone();
         std::thread::spawn(move || {
             std::thread::sleep(std::time::Duration::from_secs(limit));
-            println!("INCONCLUSIVE property={} watchdog after {} s", id, limit);
+            // a violation established by one worker while another never returns is not lost
+            let reported = vharness::engine::emergency_report();
+            if !reported {
+                println!("INCONCLUSIVE property={} watchdog after {} s", id, limit);
+            }
             // external solvers, command-line runs and fuzz processes must not outlive the check
             vharness::util::kill_descendants();
-            std::process::exit(2);
+            std::process::exit(if reported { 1 } else { 2 });
         });
     }
 
